@@ -77,4 +77,7 @@ def obligations(tier):
         Ob('E.full', 'E', 'cross product of all pools, 1/97 residue class selected by a linear congruence', 'every 1931st point of the 5.9M-point product = 3045 vectors',
            [REPO_FUNCS['sn'], REPO_FUNCS['rs']], module=H, func='e_full', timeout=3600, tiers=('thorough',), shards=16),
     ]
+    from . import c09 as _c09
+    # 'every concurrency level': no chunk is lost between producer thread and upload workers under any interleaving (C01_g = a lost last chunk)
+    obs += [o for o in _c09.obligations(tier) if o.id.startswith('T5')]
     return obs
